@@ -9,3 +9,43 @@ MODULES = [
      "imports": ["GoldilocksVerif.Isa.X86", "GoldilocksVerif.Model.Region"],
      "roots": SCALAR_ROOTS},
 ]
+
+
+def _all_params(d, pred):
+    ps = [c for c in d.get("inner", []) if c.get("kind") == "ParmVarDecl"]
+    return all(pred(p["type"]["qualType"]) for p in ps)
+
+
+def _kernel256(d):
+    """lane-kernel overloads: every parameter is a __m256i reference (or a const Element pointer/array)"""
+    return _all_params(d, lambda t: "__m256i" in t or ("Element" in t and "const" in t and ("*" in t or "[" in t)))
+
+
+def _kernel512(d):
+    return _all_params(d, lambda t: "__m512i" in t or ("Element" in t and ("*" in t or "[" in t)))
+
+
+AVX2_KERNELS = ["shift_avx", "toCanonical_avx", "toCanonical_avx_s", "add_avx", "add_avx_a_sc", "add_avx_s_b_small",
+                "add_avx_b_small", "sub_avx", "sub_avx_s_b_small", "mult_avx", "mult_avx_8", "mult_avx_128",
+                "mult_avx_72", "reduce_avx_128_64", "reduce_avx_96_64", "square_avx", "square_avx_128"]
+AVX2_MAT = ["spmv_avx_4x12", "spmv_avx_4x12_a", "spmv_avx_4x12_8", "mmult_avx_4x12", "mmult_avx_4x12_a",
+            "mmult_avx_4x12_8", "mmult_avx", "mmult_avx_a", "mmult_avx_8", "dot_avx", "dot_avx_a"]
+AVX512_KERNELS = ["toCanonical_avx512", "add_avx512", "add_avx512_b_c", "sub_avx512", "sub_avx512_b_c", "mult_avx512",
+                  "mult_avx512_8", "mult_avx512_128", "mult_avx512_72", "reduce_avx512_128_64", "reduce_avx512_96_64",
+                  "square_avx512", "square_avx512_128"]
+AVX512_MAT = ["spmv_avx512_4x12", "spmv_avx512_4x12_8", "mmult_avx512_4x12", "mmult_avx512_4x12_8", "mmult_avx512",
+              "mmult_avx512_8", "dot_avx512"]
+
+VEC_IMPORTS = ["GoldilocksVerif.Isa.X86", "GoldilocksVerif.Isa.Avx2", "GoldilocksVerif.Isa.Avx512",
+               "GoldilocksVerif.Model.Region", "GoldilocksVerif.Gen.VecConsts", "GoldilocksVerif.Gen.Scalar"]
+
+MODULES += [
+    {"name": "Avx2", "ns": "Gen.Avx2", "imports": VEC_IMPORTS, "needs_globals": True,
+     "roots": [("Goldilocks", n) for n in AVX2_KERNELS], "filter": _kernel256},
+    {"name": "Avx512", "ns": "Gen.Avx512", "imports": VEC_IMPORTS, "needs_globals": True,
+     "roots": [("Goldilocks", n) for n in AVX512_KERNELS], "filter": _kernel512},
+    {"name": "Avx2Mat", "ns": "Gen.Avx2Mat", "imports": VEC_IMPORTS + ["GoldilocksVerif.Gen.Avx2"], "needs_globals": True,
+     "roots": [("Goldilocks", n) for n in AVX2_MAT], "filter": _kernel256},
+    {"name": "Avx512Mat", "ns": "Gen.Avx512Mat", "imports": VEC_IMPORTS + ["GoldilocksVerif.Gen.Avx512"], "needs_globals": True,
+     "roots": [("Goldilocks", n) for n in AVX512_MAT], "filter": _kernel512},
+]
